@@ -696,6 +696,9 @@ func writeEvidence(p *Prop, tier string, seed uint64, o *Options, a *Agg, known 
 	}
 	b, _ := json.MarshalIndent(ev, "", " ")
 	dir := filepath.Join(o.VerifDir, "evidence")
+	if d := os.Getenv("VERIF_EVIDENCE_DIR"); d != "" { // runs against seeded changes must not overwrite the evidence of the real tree
+		dir = d
+	}
 	os.MkdirAll(dir, 0o755)
 	os.WriteFile(filepath.Join(dir, p.ID+".json"), b, 0o644)
 }
